@@ -30,6 +30,7 @@ theorem mkCompoundRaw_agrees_nat (bs : List Blk) (st : Strand) :
     rw [hzip]
     simp only [List.length_map, true_and, and_true, List.mem_map, forall_exists_index, and_imp, forall_apply_eq_imp_iff₂,
       castBlk, Int.ofNat_le, List.length_pos_iff]
+    exact ⟨fun h => ⟨h.1, fun b hb => (h.2 b hb).2⟩, fun h => ⟨h.1, fun b hb => ⟨Int.natCast_nonneg _, h.2 b hb⟩⟩⟩
   by_cases hv : bs ≠ [] ∧ ∀ b ∈ bs, b.1 ≤ b.2
   · have hok := mkCompoundLoc_ok st hv.1 hv.2
     refine ⟨fun l hl => ?_, fun e he => by rw [hok] at he; cases he⟩
